@@ -207,6 +207,39 @@ VF_MAIN
     else VF_ASSERT(R.fadeout.at.all - 2 * R.current.at.all >= 0 && R.fadeout.at.all - 2 * R.current.at.all <= 1, "after a stage switch both streams read the same instant of the input (C16)");
   }
   (void)at0;
+#elif VF_OP == 6
+  /* end of a slew inside the real vr_process (slew_len has reached 0, new_io_ratio pending), with or without a stage cross-fade running:
+   * EVERY live stream snaps to the target ratio - in its own fixed-point scale - and stops slewing: "then stays at r" (C16).
+   * Engine state constructed as for VF_OP 3; kernels produce no frame (goto-level substitution), so the state asserted is the one the
+   * snap block leaves.  VF_FADING 1: cross-fade between stage 0 (fade-out) and stage -1 (current) in progress; 0: no fade */
+#ifndef VF_FADING
+#define VF_FADING 1
+#endif
+  IN_I64(in_cstep); IN_I64(in_fstep); IN_I64(in_css); IN_I64(in_fss); IN_DBL(in_target); IN_UINT(in_fade);
+  static rate_t R; static stage_t st[2]; static float b_m1[0x8000 / 4], b_0[0x8000 / 4], b_out[0x8000 / 4];
+  int odone; int64_t want_c, want_f;
+  fade_coefs[0] = 1;
+  R.num_stages0 = R.num_stages = 1; R.stages = st + 1;
+  st[0].fifo.data = (char *)b_m1; st[0].fifo.allocation = 0x8000; st[0].fifo.item_size = sizeof(float); st[0].step_mult = 2 * MULT32; st[0].preload = 0; st[0].is_fast = 1;
+  st[1].fifo.data = (char *)b_0; st[1].fifo.allocation = 0x8000; st[1].fifo.item_size = sizeof(float); st[1].step_mult = MULT32; st[1].preload = 2 * HALF_FIR_LEN_2; st[1].is_fast = 1;
+  st[1].fifo.end = (2 * HALF_FIR_LEN_2 + 272) * sizeof(float);
+  R.output_fifo.data = (char *)b_out; R.output_fifo.allocation = 0x8000; R.output_fifo.item_size = sizeof(float);
+  R.current.stage_num = 0; enter_new_stage(&R, 0); R.fadeout = R.current;      /* fade-out stream: stage 0 */
+  R.current.stage_num = -1; enter_new_stage(&R, 0);                             /* current stream: stage -1 */
+  VF_ASSUME(in_cstep > 0 && in_cstep < ((int64_t)1 << 36) && in_fstep > 0 && in_fstep < ((int64_t)1 << 34));
+  VF_ASSUME(in_css > -((int64_t)1 << 20) && in_css < ((int64_t)1 << 20) && in_fss > -((int64_t)1 << 20) && in_fss < ((int64_t)1 << 20));
+  VF_ASSUME(in_target == .5 || in_target == .75 || in_target == .9375 || in_target == .96875);      /* ratio inside stage -1's octave, exactly representable: the expected steps are exact */
+  R.current.step.all = in_cstep; R.current.step_step.all = in_css; R.fadeout.step.all = in_fstep; R.fadeout.step_step.all = in_fss;
+  R.fade_len = VF_FADING? 512 : 0; (void)in_fade;
+  R.slew_len = 0; R.new_io_ratio = in_target;
+  odone = vr_process(&R, 1);
+  VF_ASSERT(odone == 0, "harness: kernels produce no frame");
+  want_c = (int64_t)(in_target * R.current.step_mult + .5); want_f = (int64_t)(in_target * R.fadeout.step_mult + .5);
+  VF_ASSERT(R.new_io_ratio == 0, "the pending target is consumed once the slew has ended (C16)");
+  VF_ASSERT(R.current.step.all == want_c && R.current.step_step.all == 0, "at the end of a slew the stream snaps to the target ratio and stops slewing: then stays at r (C16)");
+#if VF_FADING
+  VF_ASSERT(R.fadeout.step.all == want_f && R.fadeout.step_step.all == 0, "a stream that is still being faded out snaps to the SAME target (in its own scale) and stops slewing too: no drift between the two streams of a cross-fade (C16)");
+#endif
 #elif VF_OP == 5
   /* C10: history independence of the process-wide VR coefficient tables.  Two engine instances are initialised by the real vr_init
    * with gains multA and multB (io_spec.scale x datatype full-scale ratio, any values); then instance B produces one output frame
